@@ -285,14 +285,287 @@ Proof.
   - apply tops_flatten.
 Qed.
 
+(* ---------- the list file: readlines/strip against "a line is one id" ---------- *)
+Lemma blank_is_ws b : blank b = is_ws b.
+Proof. unfold blank, is_ws. simpl. rewrite orb_false_r, !orb_assoc. reflexivity. Qed.
+
+Lemma skip_blank_lstrip l : skip_blank l = lstrip l.
+Proof. induction l as [|b r IH]; simpl; [reflexivity|]. rewrite blank_is_ws, IH. reflexivity. Qed.
+
+Lemma forallb_blank_ws l : forallb blank l = forallb is_ws l.
+Proof. induction l as [|b r IH]; simpl; [reflexivity|]. rewrite blank_is_ws, IH. reflexivity. Qed.
+
+(* a line = its blank prefix ++ what lstrip leaves *)
+Lemma lstrip_split l : exists w, l = w ++ lstrip l /\ forallb is_ws w = true.
+Proof.
+  induction l as [|b r (w & E & W)]; simpl.
+  - exists []. split; reflexivity.
+  - destruct (is_ws b) eqn:B.
+    + exists (b :: w). simpl. rewrite B, W. split; [f_equal; exact E | reflexivity].
+    + exists []. split; reflexivity.
+Qed.
+
+Lemma lstrip_ws_app w l : forallb is_ws w = true -> lstrip (w ++ l) = lstrip l.
+Proof.
+  induction w as [|b r IH]; simpl; [reflexivity|]. intro H. apply andb_true_iff in H as [B W].
+  rewrite B. apply IH; exact W.
+Qed.
+
+Lemma lstrip_head b l : is_ws b = false -> lstrip (b :: l) = b :: l.
+Proof. intro B. simpl. rewrite B. reflexivity. Qed.
+
+Lemma lstrip_all_ws l : forallb is_ws l = true -> lstrip l = [].
+Proof. intro H. rewrite <- (app_nil_r l). rewrite lstrip_ws_app; [reflexivity | exact H]. Qed.
+
+Lemma forallb_rev {A} (p : A -> bool) l : forallb p (rev l) = forallb p l.
+Proof.
+  induction l as [|a r IH]; simpl; [reflexivity|].
+  rewrite forallb_app, IH. simpl. rewrite andb_true_r. apply andb_comm.
+Qed.
+
+Definition ends_nonblank (nm : bytes) : bool :=
+  match rev nm with [] => false | b :: _ => negb (is_ws b) end.
+
+(* rstrip c = nm  iff  c is nm followed by blanks only (nm ending in a non-blank) *)
+Lemma rstrip_eq_iff nm c : ends_nonblank nm = true ->
+  (rstrip c = nm <-> exists rest, c = nm ++ rest /\ forallb is_ws rest = true).
+Proof.
+  unfold ends_nonblank, rstrip. intro N. split.
+  - intro E. destruct (lstrip_split (rev c)) as (w & Ew & W).
+    exists (rev w). split; [|rewrite forallb_rev; exact W].
+    rewrite <- E. rewrite <- rev_app_distr, <- Ew, rev_involutive. reflexivity.
+  - intros (rest & -> & W). rewrite rev_app_distr.
+    rewrite lstrip_ws_app; [|rewrite forallb_rev; exact W].
+    destruct (rev nm) as [|b r] eqn:R; [discriminate|].
+    rewrite lstrip_head; [|destruct (is_ws b); [discriminate | reflexivity]].
+    rewrite <- R. apply rev_involutive.
+Qed.
+
+Lemma after_prefix_iff p l rest : after_prefix p l = Some rest <-> l = p ++ rest.
+Proof.
+  revert l; induction p as [|a p IH]; intros l; simpl.
+  - split; [intro H; injection H as ->; reflexivity | intros ->; reflexivity].
+  - destruct l as [|b l]; [split; discriminate|].
+    destruct (Nat.eqb a b) eqn:E.
+    + apply Nat.eqb_eq in E as ->. rewrite IH. split; [intros ->; reflexivity | intro H; injection H as ->; reflexivity].
+    + split; [discriminate|]. intro H. injection H as -> _. rewrite Nat.eqb_refl in E. discriminate.
+Qed.
+
+Lemma bytes_eqb_eq a b : bytes_eqb a b = true <-> a = b.
+Proof. apply list_eqb_spec. apply Nat.eqb_eq. Qed.
+
+Lemma bool_iff_eq (a b : bool) : (a = true <-> b = true) -> a = b.
+Proof. destruct a, b; intros [H1 H2]; try reflexivity; [symmetry; apply H1 | apply H2]; reflexivity. Qed.
+
+(* per line: strip gives nm exactly when the statement says the line lists nm *)
+Lemma strip_line_lists nm line : ends_nonblank nm = true ->
+  bytes_eqb nm (strip line) = line_lists nm line.
+Proof.
+  intro N. apply bool_iff_eq. rewrite bytes_eqb_eq. unfold strip, line_lists. rewrite skip_blank_lstrip.
+  split.
+  - intro E. symmetry in E. apply (rstrip_eq_iff nm _ N) in E as (rest & E & W).
+    apply after_prefix_iff in E. rewrite E, forallb_blank_ws. exact W.
+  - destruct (after_prefix nm (lstrip line)) as [rest|] eqn:E; [|discriminate].
+    rewrite forallb_blank_ws. intro W. symmetry. apply (rstrip_eq_iff nm _ N).
+    exists rest. split; [apply after_prefix_iff; exact E | exact W].
+Qed.
+
+Lemma strip_app_lf l : strip (l ++ [LF]) = strip l.
+Proof.
+  unfold strip. destruct (forallb is_ws l) eqn:W.
+  - rewrite lstrip_ws_app by exact W. rewrite (lstrip_all_ws l W). reflexivity.
+  - assert (H : lstrip (l ++ [LF]) = lstrip l ++ [LF]).
+    { clear -W. induction l as [|b r IH]; simpl in *; [discriminate|].
+      destruct (is_ws b); [apply IH; exact W | reflexivity]. }
+    rewrite H. unfold rstrip. rewrite rev_app_distr. reflexivity.
+Qed.
+
+(* readlines f from the lines between line feeds: every line but the last gets its LF back,
+   an empty last line disappears *)
+Fixpoint relines (ls : list bytes) : list bytes :=
+  match ls with
+  | [] => []
+  | l :: r => match r with
+              | [] => match l with [] => [] | _ => [l] end
+              | _ => (l ++ [LF]) :: relines r
+              end
+  end.
+
+Lemma split_lf_nonempty f : split_lf f <> [].
+Proof. destruct f as [|b r]; simpl; [discriminate|]. destruct (Nat.eqb b 10); [discriminate|].
+  destruct (split_lf r); discriminate. Qed.
+
+Lemma readlines_relines f : readlines f = relines (split_lf f).
+Proof.
+  induction f as [|b r IH]; [reflexivity|]. simpl. unfold LF.
+  destruct (Nat.eqb b 10) eqn:E.
+  - apply Nat.eqb_eq in E as ->. simpl. rewrite IH.
+    destruct (split_lf r) eqn:S; [exfalso; exact (split_lf_nonempty r S) | reflexivity].
+  - rewrite IH. destruct (split_lf r) as [|l ls] eqn:S; [exfalso; exact (split_lf_nonempty r S)|].
+    simpl. destruct ls; [destruct l; reflexivity | reflexivity].
+Qed.
+
+Lemma memb_existsb nm ls : memb nm ls = existsb (bytes_eqb nm) ls.
+Proof. induction ls as [|l r IH]; simpl; [reflexivity|]. rewrite IH. reflexivity. Qed.
+
+Lemma nonblank_end_nonempty nm : ends_nonblank nm = true -> bytes_eqb nm [] = false.
+Proof. destruct nm; [discriminate | reflexivity]. Qed.
+
+Theorem load_ids_lists nm f : ends_nonblank nm = true -> memb nm (load_ids f) = file_lists f nm.
+Proof.
+  intro N. unfold load_ids, file_lists. rewrite readlines_relines, memb_existsb.
+  induction (split_lf f) as [|l r IH]; [reflexivity|].
+  simpl. destruct r as [|l' r'].
+  - rewrite <- (strip_line_lists nm l N). destruct l as [|b l].
+    + change (false = bytes_eqb nm [] || false). rewrite (nonblank_end_nonempty nm N). reflexivity.
+    + reflexivity.
+  - change (existsb (bytes_eqb nm) (map strip ((l ++ [LF]) :: relines (l' :: r')))
+            = line_lists nm l || existsb (line_lists nm) (l' :: r')).
+    simpl map. simpl existsb at 1. rewrite strip_app_lf, (strip_line_lists nm l N). f_equal. exact IH.
+Qed.
+
+Lemma wf_name_ends nm : wf_nameb nm = true -> ends_nonblank nm = true.
+Proof.
+  unfold wf_nameb, ends_nonblank. intro H. apply andb_true_iff in H as [H _]. apply andb_true_iff in H as [_ H].
+  destruct (rev nm); [discriminate|]. rewrite <- blank_is_ws. exact H.
+Qed.
+
+Lemma in_load_list_listedb nms f : forallb wf_nameb nms = true ->
+  forall i, in_load_list nms f i = listedb nms f i.
+Proof.
+  intros W i. unfold in_load_list, listedb. destruct (nth_error nms i) as [nm|] eqn:E; [|reflexivity].
+  apply load_ids_lists. apply wf_name_ends. apply nth_error_In in E.
+  rewrite forallb_forall in W. apply W; exact E.
+Qed.
+
+Lemma filter_ext_all {A} (p q : A -> bool) l : (forall a, p a = q a) -> filter p l = filter q l.
+Proof. intro H. induction l as [|a r IH]; simpl; [reflexivity|]. rewrite H, IH. reflexivity. Qed.
+
+(* --load-list f runs (and --list --load-list f prints) exactly the listed tests, in suite order *)
+Theorem cli_load_runs nms f n : forallb wf_nameb nms = true ->
+  cli_run (cli_load nms f n) = filter (listedb nms f) (leaves n)
+  /\ cli_list (cli_load nms f n) = filter (listedb nms f) (leaves n)
+  /\ paths (cli_load nms f n) = filter (fun p => listedb nms f (snd p)) (paths n).
+Proof.
+  intro W. unfold cli_run, cli_list, list_test, cli_load.
+  rewrite filter_iterate, filter_paths, iterate_leaves.
+  repeat split; apply filter_ext_all; intro a; apply in_load_list_listedb; exact W.
+Qed.
+
+(* ---------- split_lf really is "the lines of the file" ---------- *)
+Lemma split_lf_join f : join_lf (split_lf f) = f.
+Proof.
+  induction f as [|b r IH]; [reflexivity|]. simpl.
+  destruct (Nat.eqb b 10) eqn:E.
+  - apply Nat.eqb_eq in E as ->. simpl.
+    destruct (split_lf r) eqn:S; [exfalso; exact (split_lf_nonempty r S)|]. rewrite IH. reflexivity.
+  - destruct (split_lf r) as [|l ls] eqn:S; [exfalso; exact (split_lf_nonempty r S)|].
+    simpl in *. destruct ls; rewrite <- IH; reflexivity.
+Qed.
+
+Lemma split_lf_no_lf f : Forall (fun l => ~ In 10 l) (split_lf f).
+Proof.
+  induction f as [|b r IH]; simpl.
+  - constructor; [intros []|constructor].
+  - destruct (Nat.eqb b 10) eqn:E.
+    + constructor; [intros [] | exact IH].
+    + destruct (split_lf r) as [|l ls]; [constructor; [|constructor]|].
+      * intros [H|[]]. subst b. discriminate.
+      * inversion IH as [|? ? Hl Hls]; subst. constructor; [|exact Hls].
+        intros [H|H]; [subst b; discriminate | exact (Hl H)].
+Qed.
+
+(* the executable "file lists nm" against the readable one *)
+Lemma line_lists_iff nm line : wf_nameb nm = true ->
+  (line_lists nm line = true <->
+   exists a b, line = a ++ nm ++ b /\ forallb blank a = true /\ forallb blank b = true).
+Proof.
+  intro W. unfold line_lists. rewrite skip_blank_lstrip. split.
+  - destruct (after_prefix nm (lstrip line)) as [rest|] eqn:E; [|discriminate]. intro B.
+    apply after_prefix_iff in E. destruct (lstrip_split line) as (w & Ew & Ww).
+    exists w, rest. rewrite forallb_blank_ws. rewrite <- E. repeat split; assumption.
+  - intros (a & b & -> & A & B). rewrite forallb_blank_ws in A.
+    rewrite lstrip_ws_app by exact A.
+    unfold wf_nameb in W. apply andb_true_iff in W as [W _]. apply andb_true_iff in W as [W _].
+    destruct nm as [|c nm]; [discriminate|]. rewrite blank_is_ws in W.
+    change ((c :: nm) ++ b) with (c :: nm ++ b). rewrite lstrip_head by (destruct (is_ws c); [discriminate|reflexivity]).
+    change (c :: nm ++ b) with ((c :: nm) ++ b).
+    assert (E : after_prefix (c :: nm) ((c :: nm) ++ b) = Some b) by (apply after_prefix_iff; reflexivity).
+    rewrite E. exact B.
+Qed.
+
+Theorem file_lists_iff nm f : wf_nameb nm = true -> (file_lists f nm = true <-> Lists f nm).
+Proof.
+  intro W. unfold file_lists, Lists. rewrite existsb_exists. split.
+  - intros (line & I & L). apply (line_lists_iff nm line W) in L as (a & b & E & A & B).
+    exists line, a, b. repeat split; assumption.
+  - intros (line & a & b & I & E & A & B). exists line. split; [exact I|].
+    apply (line_lists_iff nm line W). exists a, b. repeat split; assumption.
+Qed.
+
+Theorem load_ids_iff nm f : wf_nameb nm = true -> (memb nm (load_ids f) = true <-> Lists f nm).
+Proof. intro W. rewrite (load_ids_lists nm f (wf_name_ends nm W)). apply file_lists_iff; exact W. Qed.
+
+(* `run --list > f; run --load-list f` selects every test *)
+Definition list_output (nms : list bytes) (ids : list id) : bytes :=
+  flat_map (fun i => nth i nms [] ++ [LF]) ids.
+
+Lemma split_lf_line l r : ~ In 10 l -> split_lf (l ++ 10 :: r) = l :: split_lf r.
+Proof.
+  induction l as [|b l IH]; intro H; [reflexivity|]. simpl.
+  destruct (Nat.eqb b 10) eqn:E; [apply Nat.eqb_eq in E; subst b; exfalso; apply H; left; reflexivity|].
+  rewrite IH; [reflexivity|]. intro I. apply H. right. exact I.
+Qed.
+
+Lemma wf_name_no_lf nm : wf_nameb nm = true -> ~ In 10 nm.
+Proof.
+  unfold wf_nameb. intro H. apply andb_true_iff in H as [_ H]. rewrite forallb_forall in H.
+  intro I. specialize (H 10 I). discriminate.
+Qed.
+
+Lemma line_lists_self nm : wf_nameb nm = true -> line_lists nm nm = true.
+Proof.
+  intro W. apply (line_lists_iff nm nm W). exists [], []. rewrite app_nil_r. repeat split.
+Qed.
+
+Theorem list_then_load_all nms n : forallb wf_nameb nms = true ->
+  (forall i, In i (iterate n) -> i < length nms) ->
+  cli_run (cli_load nms (list_output nms (cli_list n)) n) = iterate n.
+Proof.
+  intros W B. destruct (cli_load_runs nms (list_output nms (cli_list n)) n W) as (-> & _).
+  unfold cli_list, list_test. rewrite <- iterate_leaves.
+  assert (H : forall ids, (forall i, In i ids -> i < length nms) ->
+                forall i, In i ids -> listedb nms (list_output nms ids) i = true).
+  { intros ids Bi i I. unfold listedb.
+    destruct (nth_error nms i) as [nm|] eqn:E; [|apply nth_error_None in E; specialize (Bi i I); lia].
+    assert (Wn : wf_nameb nm = true) by (rewrite forallb_forall in W; apply W; eapply nth_error_In; exact E).
+    unfold file_lists. apply existsb_exists. exists nm. split; [|apply line_lists_self; exact Wn].
+    clear B. induction ids as [|j r IH]; [destruct I|].
+    unfold list_output. simpl. fold (list_output nms r). rewrite <- app_assoc. simpl.
+    assert (Wj : ~ In 10 (nth j nms [])).
+    { destruct (nth_error nms j) as [x|] eqn:Ej.
+      - rewrite (nth_error_nth nms j [] Ej). apply wf_name_no_lf. rewrite forallb_forall in W. apply W.
+        eapply nth_error_In; exact Ej.
+      - apply nth_error_None in Ej. specialize (Bi j (or_introl eq_refl)). lia. }
+    rewrite (split_lf_line _ _ Wj).
+    destruct I as [->|I].
+    - left. apply nth_error_nth. exact E.
+    - right. apply IH; [intros k K; apply Bi; right; exact K | exact I]. }
+  specialize (H (iterate n) B). revert H. generalize (listedb nms (list_output nms (iterate n))).
+  clear B. intros p H. induction (iterate n) as [|a r IH]; [reflexivity|].
+  simpl. rewrite (H a (or_introl eq_refl)). f_equal. apply IH. intros i I. apply H. right. exact I.
+Qed.
+
 Lemma path_eqb_spec p q : path_eqb p q = true <-> p = q.
 Proof.
   apply pair_eqb_spec; [|apply Nat.eqb_eq]. apply list_eqb_spec. apply Nat.eqb_eq.
 Qed.
 
-Theorem model_meets_spec i : spec_okb i (model i) = true.
+Theorem model_meets_spec i : wf i -> spec_okb i (model i) = true.
 Proof.
-  unfold spec_okb. rewrite model_sorted_ok. unfold model; simpl. unfold list_test.
+  intro W. unfold spec_okb. rewrite model_sorted_ok. unfold model; simpl.
+  destruct (cli_load_runs (names i) (file i) (tree i) W) as (-> & -> & _).
+  unfold cli_list, list_test.
   rewrite filter_paths, iterate_leaves, !nat_list_eqb_refl. simpl. rewrite !andb_true_r.
   apply list_eqb_spec; [apply path_eqb_spec | reflexivity].
 Qed.
@@ -315,12 +588,16 @@ Qed.
 Theorem spec_okb_sound i o : spec_okb i o = true -> Spec i o.
 Proof.
   unfold spec_okb, Spec. intro H.
+  apply andb_true_iff in H as [H H7]. apply andb_true_iff in H as [H H6]. apply andb_true_iff in H as [H H5].
   apply andb_true_iff in H as [H H4]. apply andb_true_iff in H as [H H3]. apply andb_true_iff in H as [H1 H2].
   repeat split.
   - apply list_eqb_spec in H1; [exact H1 | apply Nat.eqb_eq].
   - apply list_eqb_spec in H2; [exact H2 | apply path_eqb_spec].
   - apply sorted_okb_sound; exact H3.
   - apply list_eqb_spec in H4; [exact H4 | apply Nat.eqb_eq].
+  - apply list_eqb_spec in H5; [exact H5 | apply Nat.eqb_eq].
+  - apply list_eqb_spec in H6; [exact H6 | apply Nat.eqb_eq].
+  - apply list_eqb_spec in H7; [exact H7 | apply Nat.eqb_eq].
 Qed.
 
 (* the comparison used by the correspondence is exact *)
@@ -334,10 +611,12 @@ Proof. destruct a, b; simpl; split; congruence. Qed.
 
 Theorem obs_eqb_spec a b : obs_eqb a b = true <-> a = b.
 Proof.
-  destruct a as [a1 a2 a3 a4], b as [b1 b2 b3 b4]. unfold obs_eqb; simpl.
+  destruct a as [a1 a2 a3 a4 a5 a6 a7], b as [b1 b2 b3 b4 b5 b6 b7]. unfold obs_eqb; simpl.
   rewrite !andb_true_iff.
   rewrite (list_eqb_spec Nat.eqb Nat.eqb_eq a1 b1), (list_eqb_spec path_eqb path_eqb_spec a2 b2),
-    (list_eqb_spec Nat.eqb Nat.eqb_eq a4 b4),
+    (list_eqb_spec Nat.eqb Nat.eqb_eq a4 b4), (list_eqb_spec Nat.eqb Nat.eqb_eq a5 b5),
+    (list_eqb_spec Nat.eqb Nat.eqb_eq a6 b6), (list_eqb_spec Nat.eqb Nat.eqb_eq a7 b7),
     (res_eqb_spec (list_eqb member_eqb) exn_eqb (list_eqb_spec member_eqb member_eqb_spec) exn_eqb_spec a3 b3).
-  split; [intros [[[-> ->] ->] ->]; reflexivity | intro H; injection H as -> -> -> ->; auto].
+  split; [intros [[[[[[-> ->] ->] ->] ->] ->] ->]; reflexivity
+         | intro H; injection H as -> -> -> -> -> -> ->; repeat split].
 Qed.
